@@ -124,6 +124,7 @@ SKELETONS = {
     'single-environment': ('article', ['\\begin{center}', L(), '\\end{center}']),
     'math-arrays': ('article', ['\\section{T}', L(), '\\begin{eqnarray}', L('mathgroup'), '&&', L('mathgroup'), '\\end{eqnarray}', L(), ' $\\begin{array}{l}', L('mathgroup'), '\\\\ ',
                                 L('mathgroup'), '\\end{array}$ ', L(), ' $\\mbox{', L(), '}$ ', L()]),
+    'low-units': ('article', ['\\section{T}', L(), ' \\paragraph{', L('title'), '}', L(), ' \\subparagraph{', L('title'), '}', L(), ' \\textbf{', L(), '} \\paragraph{', L('title'), '}', L()]),
     'plain-paragraphs': ('article', [L(), '\n\n', L(), ' \\textit{', L(), '}\n\n', L()]),
 }
 
